@@ -268,8 +268,10 @@ def main(argv):
     if rc == 1:
         return 1
     if herr:
-        for h in herr:
+        for h in herr[:3]:
             print(f"HARNESS-ERROR property={prop} shard={h.get('shard')} {h['harness_error']}")
+        if len(herr) > 3:
+            print(f"HARNESS-ERROR property={prop} ... and {len(herr) - 3} more shards")
         return 2
     if floor_msgs:
         for m in floor_msgs:
